@@ -153,7 +153,15 @@ static void op_tlwe(const V &a, V &r) {  // opcode k N p c1((k+1)N) c2((k+1)N)
     else if (opc == 2) tLweAddMulTo(c1, p, c2, tp);
     else if (opc == 3) tLweSubMulTo(c1, p, c2, tp);
     else if (opc == 4) { tLweMulByXaiMinusOne(res, p, c1, tp); out = res; }
-    if (opc <= 4) { for (int i = 0; i <= k; i++) for (int j = 0; j < N; j++) r.push_back(out->a[i].coefsT[j]); }
+    else if (opc == 20) { tLweClear(res, tp); out = res; }
+    else if (opc == 21) { tLweCopy(res, c1, tp); out = res; }
+    else if (opc == 121) { tLweCopy(c1, c1, tp); out = c1; }
+    else if (opc == 22) { tLweNoiselessTrivial(res, c2->b, tp); out = res; }
+    else if (opc == 23) tLweAddTTo(c1, k, p, tp);
+    else if (opc == 24) tLweAddTTo(c1, 0, p, tp);
+    else if (opc == 25 || opc == 26) { IntPolynomial *ip = new_IntPolynomial(N); for (int j = 0; j < N; j++) ip->coefs[j] = c2->a[0].coefsT[j];
+        tLweAddRTTo(c1, opc == 25 ? k : 0, ip, p, tp); delete_IntPolynomial(ip); }
+    if (opc <= 4 || (opc >= 20 && opc <= 26) || opc == 121) { for (int i = 0; i <= k; i++) for (int j = 0; j < N; j++) r.push_back(out->a[i].coefsT[j]); }
     else if (opc == 5) {
         LweSample *e = new_LweSample(&tp->extracted_lweparams);
         Guarded g(k * N); int32_t *o = e->a; e->a = g.data();
